@@ -1,8 +1,8 @@
 (* Model/Bst.v -- the BST stack machine of pybtex:
      pybtex/bibtex/interpreter.py  (Variable .. FunctionLiteral, Interpreter.run and the command_xxx methods)
      pybtex/bibtex/builtins.py     (all 37 built-ins, in the code's pop order)
-   as of /repo HEAD (after the fix: commits for bibtex_prefix, bibtex_substring, add.period$ and
-   format.name$).  No proofs here.
+   as of /repo HEAD (after the fix: commits for bibtex_prefix, bibtex_substring, add.period$,
+   format.name$ and int.to.chr$).  No proofs here.
 
    Python is dynamically typed and the model follows it: a built-in applied to operands of
    the wrong kind does what the Python expression does (TypeError / AttributeError / ValueError
@@ -508,9 +508,8 @@ Section Exec.
     | B_int_to_chr =>
       do (n, st) <- pop st;
       match n with
-      | VInt z =>
-        if (z <? -2147483648) || (2147483647 <? z) then Crash    (* OverflowError *)
-        else if (z <? 0) || (1114111 <? z) then err
+      | VInt z =>      (* chr(): ValueError / OverflowError outside range(0x110000) -> BibTeXError *)
+        if (z <? 0) || (1114111 <? z) then err
         else Ok (push (VStr [Z.to_N z]) st)
       | _ => Crash
       end
